@@ -32,6 +32,7 @@ import FianoModel.Crypto.RtmInPlace
 import FianoModel.Crypto.PsbChainNI
 import FianoModel.Crypto.ChainExample
 import FianoModel.Crypto.SignedRange
+import FianoModel.Crypto.CodeTie   -- T1 code-as-code tie (wp-t1x): audited as a tie module of this check
 
 namespace Fiano.Props.C16
 open Fiano Fiano.Crypto
